@@ -203,6 +203,26 @@ def run(ctx):
     sf = structured_fractions()
     for w in (0, -1, 3_831_211_530, rng.randint(-(1 << 35), 1 << 37), DT_MIN // T64 + 1, DT_MAX // T64 - 1):
         dts += [w * T64 + f for f in (sf if not ctx.quick or w in (0, 3_831_211_530) else sf[::5])]
+    # every pattern of zero / non-zero among the three groups of sub-second digits the text shows (microseconds, femtoseconds,
+    # yoctoseconds). Patterns that end in nine zero yoctosecond digits are rare among tick values (a tick is about 54210 ys): they are
+    # found by search, several whole seconds each
+    found = {}
+    tries = 0
+    while tries < (900000 if ctx.quick else 6000000) and (len(found) < 3 or min(len(v) for v in found.values()) < (2 if ctx.quick else 8)):
+        tries += 1
+        pat = tries % 3
+        us = 0 if pat == 1 else rng.randrange(1, 10 ** 6)
+        fs = 0 if pat == 2 else rng.randrange(1, 10 ** 9)
+        Y = us * 10 ** 18 + fs * 10 ** 9
+        tf = -((-Y * T64) // 10 ** 24)                # the first tick at or above Y yoctoseconds
+        if tf < T64 and (tf * 10 ** 24) // T64 == Y:
+            found.setdefault(("us" if us else "0") + "/" + ("fs" if fs else "0") + "/0", []).append(tf)
+    for pat, fr in found.items():
+        ctx.count("sub-second digit pattern", pat)
+        for f in fr[:8]:
+            for w in (0, 3_831_211_530, -1, DT_MAX // T64 - 1, rng.randint(-(1 << 35), 1 << 37)):
+                dts.append(w * T64 + f)
+    ctx.extra["digit_patterns_found"] = {k: len(v) for k, v in found.items()}
     dts = [t for t in dts if DT_MIN <= t <= DT_MAX]
     for t in dts:
         check_datetime(ctx, t, bt)
